@@ -240,7 +240,7 @@ let node_name (e : eng) nstatic n =
   if i >= nstatic then "dyn" else nname (nd e n).n_id
 let print_events oc cid (e : eng) nstatic (evs : ev list) =
   List.iter (function
-    | ENew (t, n, p, at) -> Printf.fprintf oc "case %s: N %d %s %s %s %d %s %d\n" cid (int_of_nat t) (node_name e nstatic n) (match p with None -> "-" | Some x -> string_of_int (int_of_nat x))
+    | ENew (t, n, p, at, _) -> Printf.fprintf oc "case %s: N %d %s %s %s %d %s %d\n" cid (int_of_nat t) (node_name e nstatic n) (match p with None -> "-" | Some x -> string_of_int (int_of_nat x))
                           (kname_of (nd e n).n_kind) (int_of_nat (nd e n).n_level) (uses_of (nd e n)) (int_of_z at)
     | ETrans (t, o, n, at, site) -> Printf.fprintf oc "case %s: T %d %s %s %d @%d\n" cid (int_of_nat t) (sname o) (sname n) (int_of_z at) (int_of_nat site)
     | EMsg (t, s, i, o) -> Printf.fprintf oc "case %s: M %d %s %s %s\n" cid (int_of_nat t) (mname s) (canon i) (canon o)
